@@ -222,6 +222,21 @@ def descriptors(gen: str) -> list[dict[str, Any]]:
 _FRAG_CACHE: dict[tuple[int, str], list[Fragment]] = {}
 
 
+def gen_func(repo: Repo, gen: str):
+    """The function that plays the generator's role: the one of that name, or (when the generators were merged / renamed) the
+    function the accessor's bootstrap hands (the class, the field table) to; failing that, the bootstrap itself."""
+    if repo.has_func(CODEGEN, gen):
+        return repo.func(CODEGEN, gen)
+    from .geneval import GEN_BOOTSTRAP, bootstrap_call
+    call = bootstrap_call(repo.mod(CODEGEN), gen)
+    if call is not None:
+        n = dotted(call.func)
+        if n and repo.has_func(CODEGEN, n):
+            return repo.func(CODEGEN, n)
+        return repo.func(CODEGEN, GEN_BOOTSTRAP[gen])
+    return repo.func(CODEGEN, gen)  # raises AnchorMissing
+
+
 def fragments(repo: Repo, gen: str) -> list[Fragment]:
     """Per-descriptor fragments of the emitted accessor: the generator is evaluated on a one-field mapping for every
     descriptor of the finite domain (geneval.run_generator); the fragment is what the `if sort_keys:` branch contains.
@@ -231,7 +246,7 @@ def fragments(repo: Repo, gen: str) -> list[Fragment]:
     key = (id(repo), gen)
     if key in _FRAG_CACHE:
         return _FRAG_CACHE[key]
-    f = repo.func(CODEGEN, gen)
+    f = gen_func(repo, gen)
     out = []
     for d in descriptors(gen):
         fld = Fld(d["name"], d.get("compare", True), d.get("init", True))
@@ -272,5 +287,5 @@ def accessor_name(repo: Repo, gen: str) -> tuple[str, ast.Call]:
 
     cap = run_generator(repo, gen, [(Fld(FIELD), TypeInfo(False))])
     if not isinstance(cap.fname, str) or cap.call is None:
-        raise Unsupported(f"{gen}: accessor name handed to _gen_func is not a constant", repo.func(CODEGEN, gen).node)
+        raise Unsupported(f"{gen}: accessor name handed to _gen_func is not a constant", gen_func(repo, gen).node)
     return cap.fname, cap.call
